@@ -66,4 +66,6 @@ b2f388a C19
 7cc02bb C01
 b420852 C13
 9244933 C04
+e2657c3 C04
+a36e732 C03
 LIST
